@@ -208,11 +208,27 @@ def run(prog, ctx):
     from rules.sem_adjoint import check_adjoint
 
     check_adjoint(prog, ctx)
+    # R10.1 compares the TEXT of conj and dagger (def-use extraction). It can only add confidence: whether the two implementations agree in
+    # behaviour is decided by R10.3 / R10.4 above. It is therefore run on a scratch context; what it finds is reported only when the
+    # behavioural rules found something too, otherwise it is recorded as a note (a refactor may change the form without changing behaviour).
+    from engine.report import Ctx as _Ctx
+
+    scratch = _Ctx(prog, ctx.pid, ctx.tier)
+    semantic_findings = bool(ctx.findings)
     try:
-        check_siblings(prog, ctx)
+        check_siblings(prog, scratch)
+        textual = list(scratch.findings)
     except AnalysisError as e:
-        # the def-use extraction does not recognise this form of conj / dagger; the behaviour itself is decided by R10.2-R10.4 above
+        textual = None
         ctx.notes.append(f"R10.1 not applicable to the current form of conj / dagger ({e}); R10.2-R10.4 decide the behaviour")
-        f = prog.func("symmray.fermionic_core:FermionicArray.conj")
+    f = prog.func("symmray.fermionic_core:FermionicArray.conj")
+    if textual is None:
         ctx.ok("R10.1", f"{f.file}:{f.qualname}", "sibling extraction not applicable to this form; conj / dagger agreement decided by R10.3")
+    elif textual and not semantic_findings:
+        ctx.notes.append("R10.1: the textual comparison of conj and dagger differs (" + "; ".join(x.message[:80] for x in textual[:3])
+                         + ") while R10.2-R10.4 hold on every evaluated case: treated as a change of form, not of behaviour")
+        ctx.ok("R10.1", f"{f.file}:{f.qualname}", "textual sibling comparison inconclusive for this form; behaviour decided by R10.2-R10.4")
+    else:
+        ctx.obligations.extend(scratch.obligations)
+        ctx.findings.extend(textual)
     check_abelian(prog, ctx)
